@@ -5,7 +5,7 @@ from . import core, dp, text
 
 OPTS = ["-", "preload=true", "lrucache=true&lrucachesize=100000", "preload=true&lrucache=true&lrucachesize=0",
         "lrucache=true&lrucachesize=abc", "lrucache=true", "preload=false"]
-ARG_POOL = [("S", b"1"), ("S", b"2"), ("S", b"x"), ("S", b""), ("S", b'q"uote'), ("S", b"new\nline"), ("S", b"\xc3\xa9"), ("I", 1), ("I", 2), ("I", 0), ("I", -3), ("S", b"zz-absent")]
+ARG_POOL = [("S", b"x,y"), ("S", b"y,z"), ("S", b"z"), ("I", -1), ("S", b"1"), ("S", b"2"), ("S", b"x"), ("S", b""), ("S", b'q"uote'), ("S", b"new\nline"), ("S", b"\xc3\xa9"), ("I", 1), ("I", 2), ("I", 0), ("I", -3), ("I", 9007199254740993), ("I", -9007199254740993), ("S", b"zz-absent")]
 
 
 def enc_args(args):
@@ -60,7 +60,9 @@ def gen(rng, tier, focus):
         ds = dp.small_dataset(rng, "q%d" % i, hostile=True)
         ds.rows = [{c: v for c, v in r.items() if c.isalpha()} for r in ds.rows]
         if i == 0:
-            ds = dp.Dataset("q0", [{b"a": b"1", b"b": b"x", b"c": b"p"}, {b"a": b"2", b"b": b"x", b"c": b"q"}, {b"a": b"1", b"b": b"y"}, {}], "fixed")
+            ds = dp.Dataset("q0", [{b"a": b"1", b"b": b"x", b"c": b"p"}, {b"a": b"2", b"b": b"x", b"c": b"q"}, {b"a": b"1", b"b": b"y"}, {},
+                                   {b"a": b"-3", b"b": b"x", b"c": b"p"}, {b"a": b"-3", b"b": b"y,z", b"c": b"q"}, {b"a": b"x,y", b"b": b"z", b"c": b"p"},
+                                   {b"a": b"x", b"b": b"y,z", b"c": b"q"}, {b"a": b"0", b"b": b"-1"}], "fixed")
         lines += ds.lines()
         optset = OPTS if focus == "rows" else OPTS[:3]
         for oi, opts in enumerate(optset):
@@ -82,6 +84,12 @@ def gen(rng, tier, focus):
                     argsets.append([rng.choice(ARG_POOL) for _ in range(n)])
                 if i == 0 and qn == 1:
                     mode, argsets = "direct", [[("S", b"1")]]
+                if i == 0 and qn == 2:      # negative integers, on every path
+                    txt, t, gb, m = b"a = $1 ; b", ("E", b"a", b"", 1), [b"b"], 1
+                    argsets = [[("I", -3)], [("I", 0)], [("I", -3)]]
+                if i == 0 and qn == 3:      # argument lists that differ only in where a comma sits
+                    txt, t, gb, m = b"a = $1 & b = $2 ; c", ("A", [("E", b"a", b"", 1), ("E", b"b", b"", 2)]), [b"c"], 2
+                    mode, argsets = "prepared", [[("S", b"x,y"), ("S", b"z")], [("S", b"x"), ("S", b"y,z")], [("S", b"x,y"), ("S", b"z")]]
                 qid = "%s.s%d" % (h, qn)
                 lines.append("SQLQ %s %s %s %s %d" % (qid, h, mode, core.enc_str(txt), len(argsets)))
                 for a in argsets:
